@@ -102,3 +102,23 @@ PROPS["C12"] = {
     "not_proved": "x/net/html and encoding/xml tokenizers are oracles (their token streams are inputs of the model)",
     "assumptions": COMMON_ASSUME + ["x/net/html tokenizer and encoding/xml RawToken deliver the tokens dumped by the harness"],
 }
+
+PROPS["C18"] = {
+    "channels": [{"cmd": "run-c18"}],
+    "cone": r"^MISMATCH (tar|tar-spec|walk|harness|driver)",
+    "rule": "archives written by archive/tar (USTAR, PAX, GNU; names incl. non-ASCII, 100+ characters, gpkg-1 look-alikes; modes, ids, sizes, six entry types): the first block must satisfy the specification predicate tar_header_ok (ties the spec to real writers) and Detect must report tar unless a root child before tar accepts; every position 0..511 outside the checksum field of 12 (thorough 24) headers x 6 (thorough 255) replacement values: must not be tar; Tar detector vs model on all; non-trivial = reported as tar",
+    "proved": "tar_accepts, tar_corruption (all 512-byte blocks, all positions, all values), corruption_breaks_both; K1 as explicit hypothesis with refutation witness",
+    "not_proved": "",
+    "assumptions": COMMON_ASSUME + ["conforming writers emit first blocks satisfying tar_header_ok (checked on every generated archive)"],
+}
+
+PROPS["C19"] = {
+    "channels": [{"cmd": "run-c19"}, {"cmd": "run-det", "shards": 16}],
+    "cone": r"^MISMATCH (walk|harness|driver)",
+    "cone_nodes": ["zip", "xlsx", "docx", "pptx", "epub", "apk", "jar", "odt", "ott", "ods", "ots", "odp", "otp", "odg", "otg", "odf", "odc", "sxc"],
+    "data_obligations": ["zip children and their order (apk before jar); every zip-based format has parent application/zip", "marker literals of the Go functions = specification markers"],
+    "rule": "archives written by archive/zip (CreateHeader with data descriptors and CreateRaw without; stored and deflated; bodies 0-2 kB; archives whose bodies embed a local-header signature are filtered out and counted): OOXML packages with [Content_Types].xml first, bookkeeping parts in any combination and a word/ xl/ ppt/ part at entry 2..6; JAR (with and without APK markers); stored mimetype entry naming each OpenDocument/EPUB type; marker-free archives of near-miss names; late / misplaced markers; the entry list read back with archive/zip is the oracle for both directions (extracted predicates c19_forward, c19_converse, no_marker); det: zip detectors vs model; non-trivial = result other than plain application/zip",
+    "proved": "first-entry clauses (JAR signature, offset-30 ODF/EPUB), zip sub-tree structure, marker literals",
+    "not_proved": "the five-hop walk (OOXML at entries 2..6, converse) under the signature-freeness hypothesis: decided on the implementation",
+    "assumptions": COMMON_ASSUME + ["bodies free of embedded zip signatures (filtered by the generator)"],
+}
